@@ -46,8 +46,9 @@ type ProcessSet struct {
 
 	subTracer tracing.ITracer
 
-	mch  chan imessage
-	done chan struct{}
+	mch      chan imessage
+	done     chan struct{}
+	doneOnce sync.Once
 }
 
 func NewProcessSet(executeProcesses, waitingProcesses []*schema.Process, definitions *schema.Definitions, opts ...Option) (*ProcessSet, error) {
@@ -118,10 +119,14 @@ func (ps *ProcessSet) StartAll(ctx context.Context) error {
 // WaitUntilComplete waits until the instance is complete.
 // Returns true if the instance was complete, false if the context signaled `Done`
 func (ps *ProcessSet) WaitUntilComplete(ctx context.Context) (complete bool) {
-	go func() {
-		ps.wg.Wait()
-		close(ps.done)
-	}()
+	// one closer for any number of (repeated, concurrent) waits: a second
+	// close of done would panic
+	ps.doneOnce.Do(func() {
+		go func() {
+			ps.wg.Wait()
+			close(ps.done)
+		}()
+	})
 	select {
 	case <-ctx.Done():
 		complete = false
